@@ -33,9 +33,10 @@ def to_signed(v, w):
 
 class W:
     """abstract machine word"""
-    __slots__ = ("w", "signed", "cst", "bits", "lin", "aff", "eq")
+    __slots__ = ("w", "signed", "cst", "bits", "lin", "aff", "eq", "tz")
 
-    def __init__(self, w, signed=False, cst=None, bits=None, lin=None, aff=None, eq=None):
+    def __init__(self, w, signed=False, cst=None, bits=None, lin=None, aff=None, eq=None, tz=None):
+        self.tz = tz        # this value is trailing_zeros(of a word with these bits)
         self.w = w
         self.signed = signed
         self.cst = cst
@@ -321,7 +322,35 @@ def binop(op, a, b):
     raise Unknown("unmodelled binary operation %s" % op)
 
 
+def _low_zero(bits, n):
+    """abstract truth of `bits[0..n) are all zero` as a comparison of those bits with 0"""
+    n = max(0, min(n, len(bits)))
+    lo = W(len(bits), False, bits=list(bits[:n]) + [0] * (len(bits) - n))
+    return compare("Eq", lo, W.const(0, len(bits)))
+
+
+def _negate(r):
+    if r.cst is not None:
+        return W.const(1 - r.cst, 1)
+    if r.eq is not None:
+        return W(1, False, bits=r.bits, eq=("Ne" if r.eq[0] == "Eq" else "Eq", r.eq[1], r.eq[2]))
+    return r
+
+
 def compare(op, a, b):
+    if getattr(a, "tz", None) is not None and b.cst is not None:
+        c = b.cst
+        if op == "Ge":
+            return _low_zero(a.tz, c)
+        if op == "Gt":
+            return _low_zero(a.tz, c + 1)
+        if op == "Lt":
+            return _negate(_low_zero(a.tz, c))
+        if op == "Le":
+            return _negate(_low_zero(a.tz, c + 1))
+        raise Unknown("trailing_zeros compared with == / !=")
+    if getattr(b, "tz", None) is not None and a.cst is not None:
+        return compare({"Lt": "Gt", "Le": "Ge", "Gt": "Lt", "Ge": "Le", "Eq": "Eq", "Ne": "Ne"}[op], b, a)
     if a.cst is not None and b.cst is not None:
         x, y = a.sval(), b.sval()
         r = {"Eq": x == y, "Ne": x != y, "Lt": x < y, "Le": x <= y, "Gt": x > y, "Ge": x >= y}[op]
@@ -613,7 +642,10 @@ class Interp:
             return W.const(self.align, 64)
         if nt == "core::num::trailing_zeros":
             if args[0].cst is None:
-                raise Unknown("trailing_zeros of a non-constant")
+                if args[0].bits is None:
+                    raise Unknown("trailing_zeros of a value without known bits")
+                # only comparisons with a constant are understood: tz(x) >= n  <=>  the low n bits of x are all zero
+                return W(32, False, tz=list(args[0].bits))
             v = args[0].cst
             return W.const((v & -v).bit_length() - 1 if v else 64, 32)
         if nt in ("core::num::wrapping_sub", "core::num::wrapping_add"):
